@@ -168,6 +168,23 @@ def _run_vc(args):
             tasks.append((name, list(fmls), goal, kind, insts))
 
         def solve_task(name, fmls, goal, kind, insts=None):
+            rec = _solve_task(name, fmls, goal, kind, insts, to)
+            if rec["status"] == "unknown" and kind != "guard-sat" and any(w in str(rec.get("note") or "") for w in ("timeout", "canceled", "interrupted")):
+                # budgets are wall-clock; when the machine is oversubscribed (other checks, test-suites) a query that needs a fixed amount
+                # of CPU gets a fraction of it. One retry with three times the budget then, so that verdicts do not flip under load;
+                # on an idle machine nothing is retried (a broken tree is answered as fast as before).
+                try:
+                    load, ncpu = os.getloadavg()[0], (os.cpu_count() or 1)
+                except OSError:
+                    load, ncpu = 0.0, 1
+                if load > 0.9 * ncpu:
+                    rec2 = _solve_task(name, fmls, goal, kind, insts, 3 * to)
+                    rec2["ms"] = round(rec2["ms"] + rec["ms"], 1)
+                    rec2["note"] = ((rec2.get("note") or "") + " [retried with 3x budget: load %.1f on %d cpus]" % (load, ncpu)).strip()
+                    return rec2
+            return rec
+
+        def _solve_task(name, fmls, goal, kind, insts, to):
             r = None
             if kind == "guard-sat":  # consistency of a path's quantifier-free hypotheses and explicit instances (goal is None)
                 r = solve.check_unsat(list(fmls), timeout_ms=5000, cvc5_fallback=False, want_model=False)
